@@ -159,12 +159,14 @@ func newSSHClient(versionFrame []byte, exit, stderrText string, opts ...sftp.Cli
 				sp.Shutdown()
 				return nil, sp, err
 			}
-		case <-time.After(20 * time.Second):
+		case <-cliCase.Load().After(20 * time.Second):
+			cliCase.Load().Fired()
 			sp.Shutdown()
 			return nil, sp, peers.ErrTimeout
 		}
 		return r.c, sp, nil
-	case <-time.After(20 * time.Second):
+	case <-cliCase.Load().After(20 * time.Second):
+		cliCase.Load().Fired()
 		sp.Shutdown()
 		return nil, sp, peers.ErrTimeout
 	}
@@ -205,7 +207,8 @@ func (s *sshPeer) Reply(b []byte) error {
 	select {
 	case err := <-errc:
 		return err
-	case <-time.After(20 * time.Second):
+	case <-cliCase.Load().After(20 * time.Second):
+		cliCase.Load().Fired()
 		return peers.ErrTimeout
 	}
 }
